@@ -693,7 +693,7 @@ def gen_loops(mods):
     return "\n".join(lines), dict(loops=loops, fors=fors, unknown=unknown)
 
 
-def gen_parsers(mods):
+def gen_parsers(mods, tables=()):
     """the response decoders that are plain applications of decode_bits, and the fixed-stride descriptor lists:
     which tables, which page codes, which header bytes / offsets / strides the code uses (fail-closed: a decoder that
     is expected to have one of these shapes and does not is listed in unknown_parsers)"""
@@ -829,8 +829,99 @@ def gen_parsers(mods):
                             else:
                                 unknown.append("%s: if %s" % (where, ast.unparse(st.test)[:50]))
                     continue
+    # --- lists of self-describing descriptors:  while len(X): ...; X = X[<fixed> + <length field of the descriptor>:]
+    tmap = {t["qual"]: dict(t["entries"]) for t in tables}
+    var_lists = []
+    for mod in mods:
+        if not mod.stem.startswith("scsi_cdb_"):
+            continue
+        for cls in [n for n in mod.tree.body if isinstance(n, ast.ClassDef)]:
+            clsqual = "%s.%s" % (mod.stem, cls.name)
+            for fn in [f for f in cls.body if isinstance(f, ast.FunctionDef) and f.name == "unmarshall_datain"]:
+                where = "%s.unmarshall_datain" % clsqual
+                env = {}
+                for node in ast.walk(fn):
+                    if isinstance(node, ast.Assign) and len(node.targets) == 1 and isinstance(node.targets[0], ast.Name):
+                        env.setdefault(node.targets[0].id, []).append(node.value)
+                for lp in [n for n in ast.walk(fn) if isinstance(n, ast.While)]:
+                    t = lp.test
+                    if not (isinstance(t, ast.Call) and dotted(t.func) == "len" and isinstance(t.args[0], ast.Name)):
+                        continue
+                    lv = t.args[0].id
+                    # every advance of the loop variable in this loop (not in nested loops)
+                    advs = []
+
+                    def collect(stmts):
+                        for st in stmts:
+                            if isinstance(st, (ast.While, ast.For)):
+                                continue
+                            if isinstance(st, ast.Assign) and isinstance(st.targets[0], ast.Name) and st.targets[0].id == lv \
+                                    and isinstance(st.value, ast.Subscript) and isinstance(st.value.value, ast.Name) and st.value.value.id == lv \
+                                    and isinstance(st.value.slice, ast.Slice) and st.value.slice.upper is None and st.value.slice.lower is not None:
+                                advs.append(st.value.slice.lower)
+                            for sub in ("body", "orelse"):
+                                if hasattr(st, sub) and isinstance(getattr(st, sub), list):
+                                    collect(getattr(st, sub))
+                    collect(lp.body)
+                    if not advs:
+                        continue
+                    # decode_bits(lv, cls.T, dictvar) calls in the loop: dictvar -> table
+                    dtab = {}
+                    for node in ast.walk(lp):
+                        if isinstance(node, ast.Call) and dotted(node.func) in ("decode_bits", "convert.decode_bits") and len(node.args) == 3 \
+                                and isinstance(node.args[0], ast.Name) and node.args[0].id == lv and isinstance(node.args[2], ast.Name) \
+                                and isinstance(node.args[1], ast.Attribute) and isinstance(node.args[1].value, ast.Name) and node.args[1].value.id == "cls":
+                            dtab[node.args[2].id] = "%s.%s" % (clsqual, node.args[1].attr)
+
+                    def terms(e, depth=0):
+                        """-> (constant part, [field (a, b)]) or None"""
+                        c = const_int(e)
+                        if c is not None:
+                            return c, []
+                        if isinstance(e, ast.BinOp) and isinstance(e.op, ast.Add):
+                            l, r = terms(e.left, depth), terms(e.right, depth)
+                            if l is None or r is None:
+                                return None
+                            return l[0] + r[0], l[1] + r[1]
+                        if isinstance(e, ast.Subscript) and isinstance(e.value, ast.Name) and e.value.id == lv and not isinstance(e.slice, ast.Slice) \
+                                and const_int(e.slice) is not None:
+                            return 0, [(const_int(e.slice), const_int(e.slice) + 1)]
+                        if isinstance(e, ast.Call) and dotted(e.func) in ("scsi_ba_to_int", "convert.scsi_ba_to_int") and len(e.args) == 1:
+                            a0 = e.args[0]
+                            if isinstance(a0, ast.Subscript) and isinstance(a0.value, ast.Name) and a0.value.id == lv and isinstance(a0.slice, ast.Slice) \
+                                    and a0.slice.upper is not None and const_int(a0.slice.upper) is not None:
+                                lo = 0 if a0.slice.lower is None else const_int(a0.slice.lower)
+                                if lo is not None:
+                                    return 0, [(lo, const_int(a0.slice.upper))]
+                            return terms(a0, depth) if isinstance(a0, ast.Subscript) and isinstance(a0.value, ast.Name) and a0.value.id in dtab else None
+                        if isinstance(e, ast.Subscript) and isinstance(e.value, ast.Name) and e.value.id in dtab and isinstance(e.slice, ast.Constant):
+                            ent = tmap.get(dtab[e.value.id], {}).get(e.slice.value)
+                            if ent and ent[0] == "mask":
+                                m, o = ent[1], ent[2]
+                                nb = (m.bit_length() + 7) // 8
+                                if m == (1 << (8 * nb)) - 1:
+                                    return 0, [(o, o + nb)]
+                            return None
+                        if isinstance(e, ast.Name) and depth < 3:
+                            vals = [v for v in env.get(e.id, [])]
+                            inloop = [n.value for n in ast.walk(lp) if isinstance(n, ast.Assign) and isinstance(n.targets[0], ast.Name) and n.targets[0].id == e.id]
+                            if len(inloop) == 1:
+                                return terms(inloop[0], depth + 1)
+                            if len(vals) == 1:
+                                return terms(vals[0], depth + 1)
+                        return None
+                    tot_c, tot_f, ok = 0, [], True
+                    for a in advs:
+                        r = terms(a)
+                        if r is None:
+                            ok = False
+                            break
+                        tot_c += r[0]
+                        tot_f += r[1]
+                    if ok and len(tot_f) == 1:
+                        var_lists.append((where, lv, tot_c, tot_f[0][0], tot_f[0][1]))
     sl = lambda xs: "[%s]" % "; ".join(coq_str(x) for x in xs)
-    lines = [HEADER.format(src="the unmarshall_datain functions of scsi_cdb_*.py (decoder skeletons)", extra=" Model.Parser")]
+    lines = [HEADER.format(src="the unmarshall_datain functions of scsi_cdb_*.py (decoder skeletons)", extra=" Model.Parser Model.VarList")]
     lines.append("Definition whole_parsers : list (string * list string) := [\n  %s].\n" % ";\n  ".join("(%s, %s)" % (coq_str(w), sl(t)) for w, t in whole))
     lines.append("Definition list_parsers : list (string * (list_params * string)) := [\n  %s].\n" % ";\n  ".join(
         "(%s, (mkLP %d %d %d %d %d, %s))" % (coq_str(w), S, a, b, B, k, coq_str(t)) for (w, S, a, b, B, k, t) in lists))
@@ -839,8 +930,11 @@ def gen_parsers(mods):
     lines.append("Definition inquiry_vpd_flat : list (N * string) := [%s].\n" % "; ".join("(%d, %s)" % (v, coq_str(t)) for v, t in inq["flat"]))
     lines.append("Definition inquiry_vpd_other : list (N * string) := [%s].\n" % "; ".join("(%d, %s)" % (v, coq_str(t)) for v, t in inq["other"]))
     lines.append("Definition disc_info_dispatch : list (N * string) := [%s].\n" % "; ".join("(%d, %s)" % (v, coq_str(t)) for v, t in disc))
+    lines.append("(* decoder, loop variable, descriptor = fixed bytes + value of its own length field at [a, b) *)")
+    lines.append("Definition var_lists : list (string * string * vparams) := [\n  %s].\n" % ";\n  ".join(
+        "(%s, %s, mkVP %d %d %d)" % (coq_str(w), coq_str(v), c, a, b) for (w, v, c, a, b) in var_lists))
     lines.append("Definition unknown_parsers : list string := %s.\n" % sl(unknown))
-    return "\n".join(lines), dict(whole=whole, lists=lists, inquiry=inq, disc=disc, unknown=unknown)
+    return "\n".join(lines), dict(whole=whole, lists=lists, inquiry=inq, disc=disc, unknown=unknown, var_lists=var_lists)
 
 
 def gen_builders(mods):
@@ -1059,9 +1153,27 @@ def gen_footprint(mods):
                     if isinstance(node.func, ast.Attribute) and node.func.attr in MUT and isinstance(node.func.value, ast.Name):
                         if node.func.value.id in pnames:
                             params.append("%s: %s" % (where, src_of(node, mod.text).split("\n")[0][:90]))
-            for d in fn.args.defaults + fn.args.kw_defaults:
+            # a mutable default argument that is changed in place is state shared by every later call
+            pos_args = fn.args.args
+            mdef = set()
+            for a, d in list(zip(pos_args[len(pos_args) - len(fn.args.defaults):], fn.args.defaults)) + \
+                    [(a, d) for a, d in zip(fn.args.kwonlyargs, fn.args.kw_defaults) if d is not None]:
                 if isinstance(d, (ast.List, ast.Dict, ast.Set)) or (isinstance(d, ast.Call) and dotted(d.func) in ("bytearray", "list", "dict", "set")):
-                    pass   # a mutable default is only a problem if it is mutated: covered by the parameter-mutation scan above
+                    mdef.add(a.arg)
+            for node in ast.walk(fn):
+                if isinstance(node, ast.AugAssign) and isinstance(node.target, ast.Name) and node.target.id in alias:
+                    line = "%s: %s" % (where, src_of(node, mod.text).split("\n")[0][:90])
+                    if node.target.id in mdef:
+                        shared.append(line + "   (mutable default argument changed in place)")
+                    else:
+                        params.append(line)
+                if isinstance(node, ast.Call) and isinstance(node.func, ast.Attribute) and node.func.attr in MUT \
+                        and isinstance(node.func.value, ast.Name) and node.func.value.id in mdef:
+                    shared.append("%s: %s   (mutable default argument changed in place)" % (where, src_of(node, mod.text).split("\n")[0][:90]))
+                if isinstance(node, (ast.Assign, ast.Delete)):
+                    for t in node.targets:
+                        if isinstance(t, ast.Subscript) and isinstance(t.value, ast.Name) and t.value.id in mdef:
+                            shared.append("%s: %s   (mutable default argument changed in place)" % (where, src_of(node, mod.text).split("\n")[0][:90]))
 
         for node in mod.tree.body:
             if isinstance(node, ast.FunctionDef):
@@ -1212,6 +1324,13 @@ def gen_misc(mods):
         "(%s, [%s])" % (coq_str(n), "; ".join(acts)) for n, acts in prog))
     lines.append("Definition iscsi_final : option exn := %s.\n" % final)
     lines.append("Definition sgio_cc_handler : list gact := [%s].\n" % "; ".join(handler))
+    xf, dirn, lenn = getattr(exec_iscsi, "xfer", ([], None, None))
+    lines.append("(* ISCSIDevice.execute before the status dispatch: direction / expected transfer length, Task and command arguments *)")
+    lines.append("Definition iscsi_xfer_prog : list xstep := [\n  %s].\n" % ";\n  ".join(xf))
+    lines.append("Definition iscsi_xfer_vars : string * string := (%s, %s).\n" % (coq_str(dirn or "?"), coq_str(lenn or "?")))
+    sg = [n for n in ast.walk(dmod.tree) if isinstance(n, ast.Call) and dotted(n.func) == "sgio.execute"]
+    lines.append("Definition sgio_execute_args : list (list string) := [%s].\n" % "; ".join(
+        "[%s]" % "; ".join(coq_str(src_of(a, dmod.text)) for a in c.args) for c in sg))
     info["iscsi_prog"] = [[n, acts] for n, acts in prog]
     info["sgio_handler"] = handler
     # ---- SCSIDevice replug handling
@@ -1631,6 +1750,43 @@ def exec_iscsi(mod):
             idx, taskn = i, s.value.args[1].id
     if idx is None:
         return [], "None", ["ISCSIDevice.execute: no self._iscsi.command(...) call"]
+    # ---- the transfer set-up: direction and expected transfer length from the buffer lengths
+    xfer = []
+
+    def lenof(e):
+        """len(cmd.<buf>) -> buf"""
+        if isinstance(e, ast.Call) and dotted(e.func) == "len" and len(e.args) == 1 and dotted(e.args[0]) in (cmdn + ".datain", cmdn + ".dataout"):
+            return dotted(e.args[0]).split(".")[1]
+        return None
+    dirn = lenn = None
+    for s in body[:idx + 1]:
+        txt = src_of(s, mod.text)
+        if isinstance(s, ast.Assign) and len(s.targets) == 1 and isinstance(s.targets[0], ast.Name):
+            tgt = s.targets[0].id
+            d = dotted(s.value) or ""
+            if d.startswith("iscsi.SCSI_XFER_") and dirn in (None, tgt):
+                dirn = tgt
+                xfer.append("XSetDir %s" % coq_str(d.split(".")[1]))
+                continue
+            if isinstance(s.value, ast.Constant) and s.value.value == 0 and lenn in (None, tgt):
+                lenn = tgt
+                xfer.append("XSetLen0")
+                continue
+            if isinstance(s.value, ast.Call) and dotted(s.value.func) == "iscsi.Task":
+                xfer.append("XTask [%s]" % "; ".join(coq_str(src_of(a, mod.text)) for a in s.value.args))
+                continue
+        if isinstance(s, ast.If) and not s.orelse and lenof(s.test) and len(s.body) == 2 and dirn and lenn:
+            a, b2 = s.body
+            if isinstance(a, ast.Assign) and isinstance(a.targets[0], ast.Name) and a.targets[0].id == dirn and (dotted(a.value) or "").startswith("iscsi.SCSI_XFER_") \
+                    and isinstance(b2, ast.Assign) and isinstance(b2.targets[0], ast.Name) and b2.targets[0].id == lenn and lenof(b2.value):
+                xfer.append("XIfLen %s %s %s" % (coq_str(lenof(s.test)), coq_str(dotted(a.value).split(".")[1]), coq_str(lenof(b2.value))))
+                continue
+        if s is body[idx]:
+            xfer.append("XCommand [%s]" % "; ".join(coq_str(src_of(a, mod.text)) for a in s.value.args))
+            continue
+        unknown.append("ISCSIDevice.execute (transfer set-up): " + txt[:80])
+        xfer.append("XUnknownStep %s" % coq_str(txt[:80]))
+    exec_iscsi.xfer = (xfer, dirn, lenn)
     for s in body[idx + 1:]:
         if isinstance(s, ast.If) and not s.orelse and isinstance(s.test, ast.Compare) and len(s.test.ops) == 1 \
                 and isinstance(s.test.ops[0], ast.Eq) and dotted(s.test.left) == taskn + ".status":
